@@ -64,6 +64,7 @@ package stdlib_contracts
 //@ assumed
 //@ pure
 //@ ensures len(result) == 0 || fresh(result)
+//@ ensures[two] len(slices) == 2 ==> len(result) == len(slices[0]) + len(slices[1]) && forall(i, 0, len(slices[0]), result[i] == slices[0][i]) && forall(i, 0, len(slices[1]), result[len(slices[0]) + i] == slices[1][i])
 //@ func Clone[*]
 //@ assumed
 //@ pure
